@@ -6,6 +6,8 @@ mod rng;
 mod c12;
 mod c14;
 mod probes;
+mod vmgen;
+mod vmrun;
 
 use std::path::PathBuf;
 
@@ -41,6 +43,7 @@ fn main() {
     match (cmd.as_str(), a.prop.as_str()) {
         ("gen", "C12") => c12::gen(&a),
         ("gen", "C14") => c14::gen(&a),
+        ("gen", "VM") => vmrun::gen(&a),
         _ => { eprintln!("unknown command/property"); std::process::exit(2); }
     }
 }
